@@ -11,7 +11,7 @@ PLAN = {
     "C03": {"drivers": ["classes"], "models": ["class"]},
     "C04": {"drivers": ["icase-words", "icase-sweep"], "models": ["fold"]},
     "C05": {"drivers": ["small-rep", "repeats"], "models": ["rep", "repconv"]},
-    "C06": {"drivers": ["presentation", "char-classes"], "models": ["lang", "verbose"]},
+    "C06": {"drivers": ["presentation", "char-classes", "front:hist"], "models": ["lang", "verbose"]},
     "C07": {"drivers": ["lattice", "char-classes", "front:hist", "front:large"], "models": ["builder-rust"]},
     "C08": {"models": ["pipeline"], "drivers": ["small-anchors", "anchors"]},
     "C09": {"drivers": ["class-sweep"], "models": ["class"]},
